@@ -400,4 +400,65 @@ func c14contexts(c *Ctx) {
 	}
 }
 
+// c14ratio: the stored normalization ratio follows every change of the node's ratio.
+func c14ratio(c *Ctx) {
+	r := c.R
+	r.Decides("Rule.UpdateCPUNormalizationRatio stores the new ratio and reports a change whenever it differs from the stored one by at least the epsilon - whatever its value (a ratio withdrawn to 1.0 or -1 must replace the stored one, or every quota keeps being divided by the old ratio)")
+	r.Rule("PATH(ratio follows): in Rule.UpdateCPUNormalizationRatio, with a stored ratio present and the comparison of |stored - new| with the epsilon saying 'differs', every return is true and the store into the stored ratio is reached (no test of the new value itself sits in front)")
+	fn := c.Fn(batchHookPkg, "Rule", "UpdateCPUNormalizationRatio")
+	if fn == nil {
+		return
+	}
+	f := an.Facts{}
+	nCmp := 0
+	for _, b := range fn.Blocks {
+		for _, in := range b.Instrs {
+			switch x := in.(type) {
+			case *ssa.BinOp:
+				// the stored pointer is set
+				if an.IsNilConst(x.Y) && strings.HasSuffix(an.Path(x.X), ".cpuNormalizationRatio") {
+					if x.Op == token.EQL {
+						f[x] = an.False
+					} else if x.Op == token.NEQ {
+						f[x] = an.True
+					}
+				}
+				// |diff| OP eps
+				if cl, _ := an.ResultOfCall(x.X); cl != nil && an.ShortCallee(&cl.Call) == "Abs" {
+					switch x.Op {
+					case token.GEQ, token.GTR:
+						f[x] = an.True
+						nCmp++
+					case token.LSS, token.LEQ:
+						f[x] = an.False
+						nCmp++
+					}
+				}
+			}
+		}
+	}
+	stored := false
+	reach := an.Explore(fn, nil, f, nil)
+	for _, in := range reach.Instrs() {
+		if st, ok := in.(*ssa.Store); ok && isParamOf(fn, st.Val, 0) {
+			stored = true
+		}
+		if st, ok := in.(*ssa.Store); ok {
+			if _, fld, _, ok := an.FieldOf(st.Addr); ok && fld == "cpuNormalizationRatio" {
+				stored = true
+			}
+		}
+	}
+	allTrue, n := true, 0
+	for _, ret := range reach.Returns() {
+		for _, alt := range reach.Alts(ret) {
+			n++
+			if reach.EvalAlt(alt, 0) != an.True {
+				allTrue = false
+			}
+		}
+	}
+	r.Check(nCmp >= 1 && allTrue && n > 0 && stored, "PATH", fkey(fn)+"/ratio-follows", c.Pos(fn.Pos()), "a differing ratio is always stored and reported", sprintf("a ratio that differs from the stored one is not always taken over (epsilon comparison found=%v, every return true=%v, store reachable=%v): after the node's ratio is withdrawn the quotas keep being divided by the old one", nCmp >= 1, allTrue, stored))
+}
+
 func exprString(e ast.Expr) string { return types.ExprString(e) }
